@@ -493,5 +493,6 @@ pub fn run(o: &Opts) -> Report {
         }
         rep.count_n("layouts_compared_with_model", reqs.len() as u64);
     }
+    crate::usage::run(&mut rep, o);
     rep
 }
